@@ -198,6 +198,22 @@ def check(ctx: Ctx) -> str:
               f"the prefixed returns of do_filesizeformat disagree on the scaling ({forms_}): `unit` is base ** (i + 2), one power above the prefix printed, so a return that omits the `base *` factor prints values beyond the last prefix 1000 (1024) times too small (10**28 -> '10.0 YB' instead of '10000.0 YB')",
               fs.loc(scaled[-1][1]))
 
+    ctx.rule("R9", "a filter hands each of its options to the library call under the same name: a keyword argument `k=<expr>` whose name is a parameter of the filter carries that parameter (wordwrap's break_long_words / break_on_hyphens / width, ...)")
+    n_fw = 0
+    for fname in sorted(k_ for k_, v_ in repo.module("filters").defs.items() if isinstance(v_, (ast.FunctionDef, ast.AsyncFunctionDef))):
+        if not fname.startswith(("do_", "sync_do_")):
+            continue
+        fi_ = repo.func(f"filters:{fname}")
+        params = {a_.arg for a_ in fi_.node.args.args + fi_.node.args.kwonlyargs}
+        for c in astq.calls(fi_.node):
+            for k in c.keywords:
+                if k.arg in params and isinstance(k.value, ast.Name) and k.value.id in params:
+                    n_fw += 1
+                    ctx.check(k.value.id == k.arg, f"forward:{fname}:{k.arg}", f"filters:{fname}", f"`{k.arg}={k.value.id}`",
+                              f"{fname} passes its parameter `{k.value.id}` as `{k.arg}=` to {astq.callee(c)}(...) although it has a parameter `{k.arg}` of its own: the option the caller sets is ignored and another one decides (wordwrap(break_on_hyphens=False) then also stops breaking long words, lines exceed the width)",
+                              fi_.loc(k.value))
+    ctx.floor("same-name keyword forwardings in filters", n_fw, 4)
+
     ctx.rule("R7", "regexes of the text filters classify characters by Unicode rules: no re.ASCII / (?a) on a str pattern that uses \\w, \\s, \\d or \\b, except the reviewed protocol-level patterns")
     ascii_ok = {("filters", "_attr_key_re"): "delimiters of an XML attribute name are ASCII by the HTML / XML specifications"}
     nre = 0
